@@ -54,7 +54,7 @@ NATIVE = {
     'n_elf_section_names': dict(crate='multiboot2', file='elf_sections.rs', props=['C19'],
         bound='ELF64, three entries, string-table index 0 and 2, ten name offsets 0..131056 in a real 128 KiB string table (20 cases)',
         functions=['ElfSection::name / string_table: "names resolve through the string-table entry the tag designates" (reads memory outside the tag: outside the Verus memory model; Kani loses the object of an integer-to-pointer cast)']),
-    'n_hdr_getters_many_tags': dict(crate='multiboot2-header', file='header.rs', props=['C11'],
+    'n_hdr_getters_many_tags': dict(crate='multiboot2-header', file='header.rs', props=['C11', 'C12'],
         bound='10 getter kinds x {0,1,2,5,9..13,20,40,100,600,1100} filler tags (other kinds, cycling) x wanted kind present twice / absent (280 headers, up to ~16 KiB); every getter compared with the first tag of its type in the walk',
         functions=['Multiboot2Header::get_tag and the ten typed getters beyond the Kani region sizes (Iterator::find with a closure is outside this Verus)']),
     'n_mbi_getters_many_tags': dict(crate='multiboot2', file='boot_information.rs', props=['C04', 'C03', 'C17'],
